@@ -69,6 +69,9 @@ func hostileCounts(remaining int) [][]byte {
 	i32 := func(v uint32) []byte { return []byte{0x02, byte(v >> 24), byte(v >> 16), byte(v >> 8), byte(v)} }
 	out := [][]byte{{0x00, 0xff}, {0x00, 0x80}, {0x01, 0x80, 0x00}, {0x01, 0xff, 0xff}, i32(0x7fffffff), i32(0x40000000), i32(0x80000000), i32(0xffffffff),
 		i32(0x00010000), {0x01, 0x7f, 0xff}, {0x0c}, {0x03, 0, 0, 0, 0, 0, 0, 0, 5}, {0x10, 0x05}}
+	for _, k := range []int{1, 2, 3, 4, 5, 6, 7, 9, 17, 33} { // small counts: above a fixed array's size yet below the bytes left
+		out = append(out, mkCount(k))
+	}
 	if remaining > 1 {
 		out = append(out, mkCount(remaining-1))
 	}
@@ -131,7 +134,7 @@ func c05Gen(tier string, rng *rand.Rand) []mCase {
 			if s.CountField != nil {
 				cf := *s.CountField
 				hc := hostileCounts(len(b.bytes) - cf.End)
-				for _, k := range rng.Perm(len(hc))[:4] {
+				for _, k := range rng.Perm(len(hc))[:7] {
 					nb := append(append(append([]byte(nil), b.bytes[:cf.Start]...), hc[k]...), b.bytes[cf.End:]...)
 					cs = append(cs, mkS(b, "hostile-count", fmt.Sprintf("count of wire type %d at %d := % x", s.Ty, cf.Start, hc[k]), nb))
 				}
